@@ -17,7 +17,10 @@ import re
 import sys
 
 WIDTH = {'u8': 8, 'u16': 16, 'u32': 32, 'u64': 64, 'u128': 128, 'usize': 64,
-         'i8': 8}    # i8 only as a two's-complement byte: `-`, `==` and literal patterns (cmp's -1/0/1)
+         'i8': 8,    # i8 only as a two's-complement byte: `-`, `==` and literal patterns (cmp's -1/0/1)
+         # the other signed types only as two's-complement bit patterns: casts from unsigned words, `<<`, `|`, `MAX`, `MIN`
+         'i16': 16, 'i32': 32, 'i64': 64, 'i128': 128, 'isize': 64}
+SIGNED = ('i8', 'i16', 'i32', 'i64', 'i128', 'isize')
 
 
 class TranslateError(Exception):
@@ -166,6 +169,13 @@ class Parser:
                 x = self.next()[1]
                 depth += (x == '<') - (x == '>')
             return 'uint'
+        if kind == 'id' and v not in ('Result', 'Option', 'Wrapping', 'Uint') and self.peek()[1] == '<':
+            self.next()
+            args = []
+            while not self.accept('>'):
+                args.append(self.parse_type())
+                self.accept(',')
+            return ('generic', v, args)
         if v == 'Result' and self.accept('<'):
             t = self.parse_type()
             self.expect(',')
@@ -654,7 +664,13 @@ class Emitter:
         if isinstance(t, tuple) and t and t[0] == 'assoc':
             if t[1] not in getattr(self, 'assoc', {}):
                 raise TranslateError('associated type %s is not declared uniquely in the file' % t[1])
-            return self.assoc[t[1]]
+            return self.ty(self.assoc[t[1]])
+        if isinstance(t, tuple) and t and t[0] == 'generic' and t[1] in getattr(self, 'enums', {}):
+            return ('enum', t[1], [self.ty(a) for a in t[2]])
+        if isinstance(t, str) and t in getattr(self, 'enums', {}):
+            return ('enum', t, [])
+        if isinstance(t, tuple) and t and t[0] == 'result':
+            return ('result', self.ty(t[1]), self.ty(t[2]))
         if isinstance(t, tuple) and t and t[0] == 'option':
             return ('option', self.ty(t[1]))
         if isinstance(t, str) and t in getattr(self, 'structs', {}):
@@ -696,6 +712,9 @@ class Emitter:
                 if p[1] in vm:
                     return vm[p[1]]
                 raise TranslateError('unsupported Self::%s in value mode' % p[1])
+            if len(p) == 2 and p[0] == 'Self' and isinstance(self.self_ty, str) and self.self_ty in WIDTH \
+                    and p[1] in ('MAX', 'MIN', 'BITS'):
+                return self.expr(('path', [self.self_ty, p[1]]), env, exp)      # `Self` is a primitive integer type here
             if len(p) == 2 and getattr(self, 'uint_mode', False) and p[0] == 'Self':
                 um = {'LIMBS': ('LIMBS', 'usize'), 'BITS': ('BITS', 'usize'), 'MASK': ('(mask BITS)', 'u64'),
                       'ZERO': ('(List.replicate LIMBS 0)', 'uint'),
@@ -709,7 +728,7 @@ class Emitter:
                 if p[1] in um:
                     return um[p[1]]
             if len(p) == 2 and p[0] in getattr(self, 'enums', {}):
-                return self.enum_value(p, [], env)
+                return self.enum_value(p, [], env, exp)
             if len(p) == 2 and p[0] == 'Ordering' and p[1] in ('Less', 'Equal', 'Greater'):
                 return {'Less': 'Ordering.lt', 'Equal': 'Ordering.eq', 'Greater': 'Ordering.gt'}[p[1]], 'Ordering'
             if len(p) == 2:
@@ -718,6 +737,9 @@ class Emitter:
                     return self.gconsts[key]
             if len(p) == 2 and isinstance(self.ty(p[0]), str) and p[1] in ('MAX', 'MIN', 'BITS') and self.ty(p[0]) in WIDTH:
                 t = self.ty(p[0])
+                if t in SIGNED:
+                    return {'MAX': '(2 ^ %d - 1)' % (WIDTH[t] - 1), 'MIN': '(2 ^ %d)' % (WIDTH[t] - 1), 'BITS': str(WIDTH[t])}[p[1]], \
+                        (t if p[1] != 'BITS' else 'u32')
                 return {'MAX': '(2 ^ %d - 1)' % WIDTH[t], 'MIN': '0', 'BITS': str(WIDTH[t])}[p[1]], (t if p[1] != 'BITS' else 'u32')
             raise TranslateError('unsupported path %s' % '::'.join(p))
         if k == 'tuple':
@@ -1024,7 +1046,7 @@ class Emitter:
                 rt_ = exp if isinstance(exp, tuple) and exp[0] == 'result' else self.inner_rt
                 if not (isinstance(rt_, tuple) and rt_[0] == 'result'):
                     raise TranslateError('Err(..) outside a Result context')
-                sa, _ = self.expr(args[0], env, 'enum')
+                sa, _ = self.expr(args[0], env, rt_[2] if len(rt_) > 2 else None)
                 return '(Except.error %s)' % sa, rt_
             sty = self.ty(name)
             if isinstance(sty, tuple) and sty[0] == 'tuple' and (name == 'Self' or name in getattr(self, 'structs', {})):
@@ -1038,7 +1060,11 @@ class Emitter:
                 return self.call_fn(self.fns[name], args, env)
             raise TranslateError('call to untranslated function %s' % name)
         if len(path) == 2 and path[0] in getattr(self, 'enums', {}):
-            return self.enum_value(path, args, env)
+            return self.enum_value(path, args, env, exp)
+        if len(path) == 3 and path[0] == 'Self' and path[1] == 'Error' and isinstance(getattr(self, 'assoc', {}).get('Error'), tuple):
+            # `Self::Error::Variant(..)`
+            et_ = self.ty(('assoc', 'Error'))
+            return self.enum_value([et_[1], path[2]], args, env, et_)
         if path[-2:] == ['cmp', 'min'] and len(args) == 2:
             sa, ta = self.expr(args[0], env, exp)
             sb, _ = self.expr(args[1], env, ta)
@@ -1058,6 +1084,14 @@ class Emitter:
         if path == ['Self', 'from'] and getattr(self, 'uint_mode', False) is True and len(args) == 1 and args[0][0] == 'lit':
             # `Self::from(k)` for a literal: the limbs of k (`from` panics when k does not fit; callers use small k)
             return '(Ruint.toLimbs LIMBS %d)' % args[0][1], 'uint'
+        if path[0] == 'Self' and name in getattr(self, 'call_alias', {}):
+            # several impls define a function of this name: the item says which one this call resolves to
+            sig = self.fns[self.call_alias[name]]
+            ss = ['BITS', 'LIMBS'] + [self.expr(a, env, self.ty(pt))[0] for a, pt in zip(args, sig[1])]
+            if len(sig) > 3 and sig[3]:
+                self.uses_fuel = True
+                ss = ['fuel'] + ss
+            return '(%s %s)' % (sig[0], ' '.join(ss)), sig[2]
         if path[0] == 'Self' and getattr(self, 'uint_mode', False) and ('Uint::' + name) in self.fns and args:
             sig = self.fns['Uint::' + name]
             if sig[1] and sig[1][0] != 'uint':
@@ -1076,17 +1110,48 @@ class Emitter:
             return self.call_fn(self.fns[key], args, env)
         raise TranslateError('unsupported call %s' % '::'.join(path))
 
-    def enum_value(self, path, args, env):
-        """`Enum::Variant` / `Enum::Variant(a[, b])` of a field-less or word-carrying error enum: (index, a, b)"""
+    def enum_slots(self, et):
+        """field slot types of an enum type ('enum', name, type args): position k holds the k-th field of whichever variant has
+        one (the variants must agree on its type); the value of the enum is (variant index, slot 1, …, padded with defaults)"""
+        name, targs = et[1], et[2]
+        tp, fts = self.enum_fields[name]
+        n = max([len(f) for f in fts] + [0])
+        slots = []
+        for k in range(n):
+            ts = []
+            for f in fts:
+                if len(f) > k:
+                    t = targs[0] if (tp and f[k] == tp and targs) else self.ty(Parser(tokenize(f[k])).parse_type())
+                    if t not in ts:
+                        ts.append(t)
+            if len(ts) != 1:
+                raise TranslateError('variants of %s disagree on the type of field %d' % (name, k))
+            slots.append(ts[0])
+        if name == 'BaseConvertError' or not slots:
+            slots = (slots + ['u64', 'u64'])[:max(2, len(slots))]
+        return slots
+
+    def enum_value(self, path, args, env, exp=None):
+        """`Enum::Variant` / `Enum::Variant(a, …)`: (variant index in declaration order, fields padded with defaults)"""
         variants = self.enums[path[0]]
         if path[1] not in [v for v, _ in variants]:
             raise TranslateError('unknown variant %s::%s' % tuple(path))
         idx = [v for v, _ in variants].index(path[1])
         ar = variants[idx][1]
-        if ar != len(args) or ar > 2:
+        if ar != len(args):
             raise TranslateError('variant %s::%s takes %d fields' % (path[0], path[1], ar))
-        fs = [self.expr(a, env, 'u64')[0] for a in args] + ['0'] * (2 - len(args))
-        return '(%d, %s, %s)' % (idx, fs[0], fs[1]), 'enum'
+        et = exp if isinstance(exp, tuple) and exp and exp[0] == 'enum' and exp[1] == path[0] else None
+        if et is None:
+            rt_ = self.inner_rt
+            if isinstance(rt_, tuple) and rt_[0] == 'result' and isinstance(rt_[2], tuple) and rt_[2][0] == 'enum' and rt_[2][1] == path[0]:
+                et = rt_[2]
+            else:
+                et = ('enum', path[0], [])
+        slots = self.enum_slots(et)
+        fs = [self.expr(a, env, slots[i])[0] for i, a in enumerate(args)]
+        for t in slots[len(args):]:
+            fs.append('[]' if t in ('uint', 'slice', 'mutslice') else 'false' if t == 'bool' else '0')
+        return '(' + ', '.join([str(idx)] + fs) + ')', et
 
     def call_fn(self, sig, args, env):
         ln, pts, rt = sig[0], sig[1], sig[2]
@@ -1120,6 +1185,16 @@ class Emitter:
 
     def mcall(self, e, env, exp):
         _, recv, name, args = e
+        if name == 'and_then' and len(args) == 1 and args[0][0] == 'closure' and len(args[0][1]) == 1:
+            # `res.and_then(|n| body)` on a `Result`: `Ok(n)` continues with the body, an error is passed on
+            sr, tr = self.expr(recv, env, exp)
+            if not (isinstance(tr, tuple) and tr[0] == 'result'):
+                raise TranslateError('and_then on a non-Result')
+            v = args[0][1][0]
+            e2 = dict(env)
+            e2[v] = tr[1]
+            sb, tb = self.expr(args[0][2], e2, tr)
+            return '(match %s with\n  | Except.ok %s => %s\n  | Except.error e_ => Except.error e_)' % (sr, lean_ident(v), sb), tb
         sr, tr = self.expr(recv, env, exp)
         if tr == 'uint' and getattr(self, 'uint_mode', False) == 'value':
             ext = getattr(self, 'externs', {})
@@ -1303,6 +1378,9 @@ class Emitter:
             return False
         if e[0] == 'mcall' and e[2] in ('expect', 'unwrap'):
             return True
+        if e[0] == 'call' and e[1][0] == 'Self' and len(e[1]) == 2 and e[1][1] in getattr(self, 'call_alias', {}):
+            sig = self.fns.get(self.call_alias[e[1][1]], ())
+            return len(sig) > 7 and bool(sig[7])
         if e[0] == 'call' and e[1][0] == 'Self' and len(e[1]) == 2 and getattr(self, 'uint_mode', False) is True:
             sig = self.fns.get('Uint::' + e[1][1], ())
             return len(sig) > 7 and bool(sig[7])
@@ -2281,6 +2359,9 @@ class Emitter:
                 if node[0] == 'call' and node[1][0] == 'Self' and len(node[1]) == 2 \
                         and len(self.fns.get('Uint::' + node[1][1], ())) > 7 and self.fns['Uint::' + node[1][1]][7]:
                     return True
+                if node[0] == 'call' and node[1][0] == 'Self' and len(node[1]) == 2 and node[1][1] in getattr(self, 'call_alias', {}) \
+                        and len(self.fns.get(self.call_alias[node[1][1]], ())) > 7 and self.fns[self.call_alias[node[1][1]]][7]:
+                    return True
                 if node[0] == 'mcall' and len(self.fns.get('Uint::' + node[2], ())) > 7 and self.fns['Uint::' + node[2]][7] \
                         and getattr(self, 'uint_mode', False) is True:
                     return True
@@ -2324,7 +2405,7 @@ class Emitter:
         if isinstance(t, tuple) and t[0] == 'option':
             return ('option', self.ty_deep(t[1]))
         if isinstance(t, tuple) and t[0] == 'result':
-            return ('result', self.ty_deep(t[1]), t[2])
+            return ('result', self.ty_deep(t[1]), self.ty(t[2]))
         return t
 
     def lean_ty(self, t):
@@ -2334,9 +2415,12 @@ class Emitter:
             return 'Ordering'
         if isinstance(t, tuple) and t[0] == 'option':
             return 'Option (%s)' % self.lean_ty(t[1])
+        if isinstance(t, tuple) and t[0] == 'enum':
+            # (variant index in the enum's declaration order, field slots padded with defaults)
+            return ' × '.join(['Nat'] + [self.lean_ty(x) for x in self.enum_slots(t)])
         if isinstance(t, tuple) and t[0] == 'result':
-            # an error value is (variant index in the enum's declaration order, its fields padded with 0)
-            return 'Except (Nat × Nat × Nat) (%s)' % self.lean_ty(t[1])
+            et_ = t[2] if len(t) > 2 and isinstance(t[2], tuple) and t[2][0] == 'enum' else None
+            return 'Except (%s) (%s)' % (self.lean_ty(et_) if et_ else 'Nat × Nat × Nat', self.lean_ty(t[1]))
         if t == 'uint' and getattr(self, 'uint_mode', False) == 'value':
             return 'Nat'
         if t in ('uint', 'slice', 'mutslice') or (isinstance(t, tuple) and t[0] == 'array'):
@@ -2430,6 +2514,9 @@ def translate(items, namespace='Ruint.Gen', imports=('Ruint.Gen.Prelude',), fns=
                 text = extract_fn(src[src.index(it['after']):], it['fn'])
             else:
                 text = extract_fn(src, it['fn'])
+            for k_, v_ in it.get('subst', {}).items():
+                # macro metavariables of the enclosing `macro_rules!` arm, instantiated as the macro call does
+                text = text.replace(k_, v_)
             for pat_, rep_ in it.get('rewrite', []):
                 # declared source-level rewrites of constructs outside the translated subset (each must match exactly once)
                 if len(re.findall(pat_, text)) != 1:
@@ -2439,13 +2526,19 @@ def translate(items, namespace='Ruint.Gen', imports=('Ruint.Gen.Prelude',), fns=
             em = Emitter(fns, it.get('self_ty'), structs=it.get('structs'), gconsts=it.get('gconsts'), self_name=it.get('self_name'))
             em.uint_mode = it.get('uint') or False     # True: limb lists; 'value': a Uint is its numeric value
             em.externs = it.get('externs', {})
+            em.call_alias = it.get('call_alias', {})
             # field-less / word-carrying enums declared in the same file (error types)
             em.enums = {}
-            for m_ in re.finditer(r'\benum\s+(\w+)\s*\{(.*?)\n\}', re.sub(r'//[^\n]*', '', src), re.S):
+            em.enum_fields = {}
+            for m_ in re.finditer(r'\benum\s+(\w+)\s*(?:<\s*(\w+)\s*>)?\s*\{(.*?)\n\}', re.sub(r'//[^\n]*', '', src), re.S):
                 vs = []
-                for v_ in re.finditer(r'(?:#\[[^\]]*\]\s*)*(\w+)\s*(\(([^)]*)\))?\s*,', m_.group(2)):
-                    vs.append((v_.group(1), len([x for x in (v_.group(3) or '').split(',') if x.strip()])))
+                fts = []
+                for v_ in re.finditer(r'(?:#\[[^\]]*\]\s*)*(\w+)\s*(\(([^)]*)\))?\s*,', m_.group(3)):
+                    fl = [x.strip() for x in (v_.group(3) or '').split(',') if x.strip()]
+                    vs.append((v_.group(1), len(fl)))
+                    fts.append(fl)
                 em.enums[m_.group(1)] = vs
+                em.enum_fields[m_.group(1)] = (m_.group(2), fts)      # (type parameter, field types per variant)
             # generic parameters `I: IntoIterator<Item = u64>` are digit sequences
             em.typarams = list(fn.get('typarams', []))
             em.assoc = {}
@@ -2453,6 +2546,14 @@ def translate(items, namespace='Ruint.Gen', imports=('Ruint.Gen.Prelude',), fns=
                 vals_ = set(re.findall(r'\btype\s+%s\s*=\s*([^;]+);' % an_, src))
                 if len(vals_) == 1 and list(vals_)[0].strip() in WIDTH:
                     em.assoc[an_] = list(vals_)[0].strip()
+            # associated types of the enclosing `impl`: the nearest `type X = …;` in front of the function
+            pos_ = src.find(text[:60])
+            if pos_ >= 0:
+                for an_, av_ in re.findall(r'\btype\s+(\w+)\s*=\s*([^;]+);', src[max(0, pos_ - 600):pos_]):
+                    try:
+                        em.assoc[an_] = Parser(tokenize(av_.strip())).parse_type()
+                    except (TranslateError, IndexError):
+                        pass
             if it.get('self_fields'):
                 # a struct `self` with named fields: each field becomes a parameter (`self.f` -> `self_f`)
                 sf = it['self_fields']
@@ -2665,6 +2766,27 @@ def bytes_items(repo):
             dict(u, fn='try_from_be_slice', lean='uint_try_from_be_slice', key='Uint::try_from_be_slice', rewrite=rw_be)]
 
 
+def conv_items(repo):
+    """src/from.rs: integer conversions in both directions (limb mode). Several `fn try_from` live in the file: each item names
+    the `impl` header it sits under; the `to_int!` macro body is instantiated per target type."""
+    f = repo + '/src/from.rs'
+    u = {'self_ty': 'uint', 'uint': True, 'group': 'conv', 'externs': UINT_EXTERNS, 'file': f}
+    out = [dict(u, fn='try_from', lean='uint_try_from_u64', key='Uint::try_from_u64', after='TryFrom<u64> for Uint'),
+           dict(u, fn='try_from', lean='uint_try_from_u128', key='Uint::try_from_u128', after='TryFrom<u128> for Uint',
+                call_alias={'try_from': 'Uint::try_from_u64'}),
+           dict(u, fn='const_from_u64', lean='uint_const_from_u64', key='Uint::const_from_u64'),
+           dict(u, fn='try_from', lean='u128_try_from_uint', key='u128::try_from_uint',
+                after='TryFrom<&Uint<BITS, LIMBS>> for u128', self_ty='u128'),
+           dict(u, fn='try_from', lean='i128_try_from_uint', key='i128::try_from_uint',
+                after='TryFrom<&Uint<BITS, LIMBS>> for i128', self_ty='i128'),
+           dict(u, fn='try_from', lean='bool_try_from_uint', key='bool::try_from_uint',
+                after='TryFrom<&Uint<BITS, LIMBS>> for bool', self_ty='bool')]
+    for t in ('i8', 'u8', 'i16', 'u16', 'i32', 'u32', 'i64', 'u64', 'isize', 'usize'):
+        out.append(dict(u, fn='try_from', lean='%s_try_from_uint' % t, key='%s::try_from_uint' % t,
+                        after='TryFrom<&Uint<BITS, LIMBS>> for $int', self_ty=t, subst={'<$int>': t, '$int': t}))
+    return out
+
+
 def radix_items(repo):
     """src/base_convert.rs: digit-sequence conversions (limb mode; errors are (variant index, fields))"""
     f = repo + '/src/base_convert.rs'
@@ -2688,6 +2810,7 @@ GROUPS = [('core', 'Words', ('Ruint.Gen.Prelude',)),
           ('radix', 'WordsRadix', ('Ruint.Gen.WordsUint',)),
           ('uintmod', 'WordsUintMod', ('Ruint.Gen.WordsUintDiv', 'Ruint.Gen.WordsRedcLoops')),
           ('bytes', 'WordsBytes', ('Ruint.Gen.WordsUintMod', 'Ruint.Gen.PreludeBytes')),
+          ('conv', 'WordsConv', ('Ruint.Gen.WordsUintMod',)),
           ('value', 'WordsValue', ('Ruint.Gen.Prelude', 'Ruint.Model.Modular'))]
 
 
@@ -2706,6 +2829,7 @@ def translate_all(repo):
     items += radix_items(repo)
     items += uint_mod_items(repo)
     items += bytes_items(repo)
+    items += conv_items(repo)
     items += value_items(repo)
     try:
         items += lehmer_items(repo)
